@@ -46,7 +46,10 @@ var alsoRuns = map[string][]borrow{
 	"C02": {{prop: "C03"}, {prop: "C14", rules: []string{"M6"}}, {prop: "C09", rules: []string{"L4"}}, {prop: "C18", rules: []string{"F1", "F2", "F3"}}, {prop: "C16", rules: []string{"V3"}},
 		// what compaction deletes from the output stream is gone on the compacting node as on a node restored from the
 		// snapshot: the deleted batch leaves the cache too (C08.S3), else Get / GetNext keep serving it here and nowhere else
-		{prop: "C08", rules: []string{"S3"}, keyHas: "Delete of batch"}},
+		{prop: "C08", rules: []string{"S3"}, keyHas: "Delete of batch"},
+		// the fold of Snapshot applies an entry through the same function as Apply, without an output stream: a session the
+		// entry ended must leave the table there as well (C17.Y4), else the snapshot holds sessions no replica has
+		{prop: "C17", rules: []string{"Y4"}, keyHas: "MaybeDeleteSession(msg.Session) after ProcessMessage"}},
 	// … and hands back usable objects: every map a handler assigns into is non-nil after a load (C06.G5)
 	"C03": {{prop: "C13", rules: []string{"E6"}, keyHas: "ending another session"}, {prop: "C14", rules: []string{"M6"}}, {prop: "C02", rules: []string{"N1"}, keyHas: "live global"}, {prop: "C06", rules: []string{"G5"}}},
 	// acknowledged entries survive snapshots (C02, C03), the store honours its contract (C09 + its entry codec), and
